@@ -97,7 +97,7 @@ def do_case(ctx, inp):
 
 def gen_rule(rng, t, k):
     names = sorted(leaves_of(t))
-    kind = rng.choice(["Any", "All", "AtMost", "ccAny", "ccXor", "Imply", "Slack"])
+    kind = rng.choice(["Any", "All", "AtMost", "ccAny", "ccXor", "Imply", "Slack", "Bundle"])
     lvs = leaves_of(t)
     bools = [x for x in names if lvs[x] == (0, 1)] or names
     grp = lambda n: [{"c": "str", "id": x} for x in rng.sample(bools, min(n, len(bools)))]
@@ -122,6 +122,17 @@ def gen_rule(rng, t, k):
         return r
     if kind in ("Any", "All"): r.update(c=kind, args=grp(rng.randint(1, 3)))
     elif kind == "AtMost": r.update(c="AtMost", v=1, args=grp(rng.randint(2, 3)))
+    elif kind == "Bundle":
+        # several named rules handed over as one unnamed conjunction: the configurator gains ONE rule (the conjunction), whose
+        # members sit below it — exactly what the constructor builds from the same argument
+        members = []
+        for m_ in range(rng.randint(2, 3)):
+            g = grp(rng.randint(1, 2))
+            mm = {"c": rng.choice(["Any", "All", "AtMost"]), "args": g, "id": f"M{k}_{m_}"}
+            if mm["c"] == "AtMost": mm["v"] = 1
+            members.append(mm)
+        r.pop("id", None)
+        r.update(c="All", args=members)
     elif kind == "Slack":
         # a rule that cannot fail (a limit nobody can exceed, a threshold of nothing, a choice with an alternative that is
         # always there): it restricts nothing, and is a rule of the configurator like any other (its id, its items)
